@@ -1,4 +1,49 @@
-"""Warm the numba cache for the current tree by touching every kernel once."""
-def warm_all():
-    import sigpyproc.readers  # noqa: F401
-    import sigpyproc.core.kernels  # noqa: F401
+"""Warm the numba cache for the current tree: run one case of every kind of every monitor in-process."""
+from __future__ import annotations
+
+import glob
+import importlib
+import os
+import time
+import warnings
+
+
+def warm_all(verbose=True):
+    warnings.simplefilter("ignore")
+    from vlib.core import Ctx
+
+    root = os.environ.get("VERIF_ROOT") or os.path.dirname(os.path.dirname(os.path.abspath(__file__)))
+    for path in sorted(glob.glob(os.path.join(root, "monitors", "c[0-9][0-9]_*.py"))):
+        name = os.path.splitext(os.path.basename(path))[0]
+        if name.startswith("c20"):
+            continue  # spawns children / strace: nothing to compile that C07 does not already cover
+        t0 = time.time()
+        mon = importlib.import_module(f"monitors.{name}")
+        ctx = Ctx(mon.PROPERTY, "quick", 0, 0, 1)
+        ctx.mode = "normal"
+        seen, ran = set(), 0
+        try:
+            if hasattr(mon, "setup_worker"):
+                mon.setup_worker(ctx)
+            for case in mon.cases("quick", 0):
+                key = tuple(str(case.get(k)) for k in ("kind", "t", "kernel", "api", "path", "cls", "mode") if k in case)
+                if case.get("kernel") and case.get("shape") not in (None, "tiny"):
+                    continue
+                if key in seen:
+                    continue
+                seen.add(key)
+                for k in ("reps",):
+                    if isinstance(case.get(k), int):
+                        case = dict(case, **{k: min(case[k], 2)})
+                ctx.cur_case = case
+                try:
+                    mon.run_case(case, ctx)
+                except Exception as exc:  # noqa: BLE001
+                    print(f"  warm {name}: {type(exc).__name__}: {exc}")
+                ran += 1
+                if ran >= 40 or time.time() - t0 > 90:
+                    break
+        finally:
+            ctx.cleanup()
+        if verbose:
+            print(f"  warmed {name}: {ran} cases in {time.time() - t0:.1f}s")
